@@ -443,6 +443,15 @@ func runCase(line string) string {
 				return "ok " + hx.Hex(b) + " err"
 			}
 			return "ok " + hx.Hex(b) + " " + showState(back)
+		case "B":
+			// the key blocks of two connections with one master secret (the original and one resumed from it)
+			vers, _ := strconv.ParseUint(f[2], 16, 16)
+			suite, _ := strconv.ParseUint(f[3], 16, 16)
+			mac, key, iv, b1, b2, ok := gmtls.VerifKeyBlocks(uint16(vers), uint16(suite), hx.UnHex(f[4]), hx.UnHex(f[5]), hx.UnHex(f[6]), hx.UnHex(f[7]), hx.UnHex(f[8]))
+			if !ok {
+				return "err suite"
+			}
+			return fmt.Sprintf("ok %d %d %d %s %s", mac, key, iv, hx.Hex(b1), hx.Hex(b2))
 		case "U":
 			st, ok := gmtls.VerifSessionStateUnmarshal(hx.UnHex(f[2]))
 			if !ok {
@@ -726,6 +735,21 @@ func gen(seed uint64, tier string) []string {
 	nM, nU, nT, nL, nH := 150, 400, 300, 150, 150
 	if thorough {
 		nM, nU, nT, nL, nH = 1500, 6000, 3000, 2000, 3000
+	}
+	// B: keysFromMasterSecret for an original connection and for one resumed from it (same master secret, fresh
+	// hello randoms - both, only the server's, only the client's)
+	for _, vs := range []string{"0101 e013", "0101 e053", "0301 002f", "0301 c014", "0302 0035", "0302 000a", "0303 009c", "0303 c030",
+		"0303 cca8", "0303 003c", "0303 009d"} {
+		for k := 0; k < 3; k++ {
+			ms, cr1, sr1, cr2, sr2 := r.Bytes(48), r.Bytes(32), r.Bytes(32), r.Bytes(32), r.Bytes(32)
+			switch k {
+			case 1:
+				cr2 = cr1
+			case 2:
+				sr2 = sr1
+			}
+			add("B %d %s %s %s %s %s %s", vs, hx.Hex(ms), hx.Hex(cr1), hx.Hex(sr1), hx.Hex(cr2), hx.Hex(sr2))
+		}
 	}
 	// M: marshal / unmarshal
 	for i := 0; i < nM; i++ {
